@@ -869,6 +869,8 @@ class Message:
         self.iv = iv
         # set by parse() when the message carried a Payload SK whose integrity checksum was verified
         self.authenticated = False
+        # set by parse() to the octets the message was parsed from
+        self.raw_data = None
         if self.crypto is not None and self.iv is None:
             self.iv = self.crypto.cipher.generate_iv()
 
@@ -934,6 +936,7 @@ class Message:
             encrypted_payloads=[],
             crypto=crypto
         )
+        message.raw_data = bytes(data)
 
         if not header_only:
             # parse unencrypted payloads
